@@ -7,13 +7,13 @@ import vcheck
 def _coverage(ctx, lines):
     """The correspondence must EXERCISE the classes of the quantifier: record which were seen."""
     seen = {"single": 0, "multi": 0, "aux_rands0": 0, "ext1": 0, "ext2": 0, "ext3": 0, "layers0": 0, "layers>=4": 0,
-            "grind0": 0, "grind>0": 0}
+            "grind0": 0, "grind>0": 0, "lagrange": 0, "lagrange+aux_rands>=1": 0}
     hashers, fields, maxl = set(), set(), 0
     for l in lines:
-        if not l.startswith("tr v "):
+        if not l.startswith("tr p "):   # prover lines exist for accepted and for rejected honest proofs
             continue
         t = l.split(" => ")[0].split()
-        tag, sh = t[2], [int(x) for x in t[3:15]]
+        tag, sh = t[2], [int(x) for x in t[3:18]]
         f, h, _ = tag.split("/")
         fields.add(f)
         hashers.add(h)
@@ -24,6 +24,8 @@ def _coverage(ctx, lines):
         seen["layers>=4"] += int(sh[9] >= 4)
         maxl = max(maxl, sh[9])
         seen["grind0" if sh[10] == 0 else "grind>0"] += 1
+        seen["lagrange"] += int(sh[12] == 1)
+        seen["lagrange+aux_rands>=1"] += int(sh[12] == 1 and sh[2] >= 1)
     missing = [k for k, v in seen.items() if v == 0]
     want_h = {"toy", "blake3_256", "rp64_256"}
     want_f = {"f64", "f128"}
@@ -45,7 +47,8 @@ def run(ctx):
     _own_findings(ctx)
     ctx.rule = ("correspondence: the real Prover::prove and winter_verifier::verify run with RecordingCoin<DefaultRandomCoin<H>> over "
                 "boundary shapes first (0 / max FRI layers, aux segment with and without random elements, base/quadratic/cubic, "
-                "grinding 0 and >0) then random members of the AIR family x {f64,f128,f62} x {ToyHasher,Blake3_256,Rp64_256,"
+                "grinding 0 and >0) then random members of the AIR family and of the Lagrange-kernel family (GKR draws + 0..3 ordinary "
+                "auxiliary random elements; observed USES of the drawn values as GKR / auxiliary randomness are part of the abstract log) x {f64,f128,f62} x {ToyHasher,Blake3_256,Rp64_256,"
                 "Rp62_248,Sha3_256}; both coin logs abstracted to (operation, absorbed proof component) by byte comparison with "
                 "values recomputed from the serialized proof and compared with the extracted Coq generators (tr), and fed to the "
                 "extracted Coq decision procedure log_ok (chk); Context::to_elements vs its arithmetic model (ctx). falsifier "
@@ -56,7 +59,7 @@ def run(ctx):
         "the RandomCoin trait is the only channel through which prover and verifier obtain challenges (type-level: the coin is a private field of ProverChannel / a local of verify)",
         "which draw serves which purpose is determined by call order in air/src/air/mod.rs (get_aux_rand_elements, get_constraint_composition_coefficients, get_deep_composition_coefficients) — the model labels the i-th draw accordingly; FriVerifier::verify_generic reads layer_alphas[depth] only for depth < num_fri_layers (code reading)",
         "hash functions are modelled as free constructors (Seed/Reseed/Nonce): the theorems are about WHAT is absorbed in WHICH order, not about collision resistance",
-        "AIRs with a Lagrange-kernel auxiliary column (GKR sub-protocol drawing from the coin in user code) are out of the model's scope",
+        "Lagrange-kernel AIRs: the number of elements the user's GKR step draws is a shape parameter; absorption of the GKR proof bytes (user code) is not modelled",
     ]
     ctx.audit_sources()
     ctx.coq_build("C04")
@@ -70,8 +73,11 @@ def run(ctx):
         lines = out.split("\n")
         ctx.ob("harness-run:corr", rc == 0 and any(l.startswith("tr v ") for l in lines), out[-300:] if rc else "")
         for pref, name in (("tr ", "transcript-events-vs-model"), ("chk ", "observed-log-vs-coq-decision-procedure"),
+                           ("trp ", "early-stopped-verifier-log-is-prefix-of-model"),
                            ("ctx ", "context-to-elements-vs-model")):
-            ctx.correspondence(name, [l for l in lines if l.startswith(pref)], drv)
+            sel = [l for l in lines if l.startswith(pref)]
+            if sel or pref != "trp ":      # trp lines exist only when a verifier rejected an honest proof
+                ctx.correspondence(name, sel, drv)
         _coverage(ctx, lines)
     if hb:
         budget = (150 if quick else 5000) * (4 if ctx.broken() else 1)
